@@ -89,6 +89,8 @@ class Gen:
         if self.vtype in INT_TYPES:
             c += ["value"] * 4
         c += ["this.A", "this.A", "this.B", "this.U", "this.L", "1", "2", "3", "10", "100", "0", "200", "5"]
+        if self.vtype in INT_TYPES and not INT_TYPES[self.vtype][1]:
+            c += ["1u", "2u", "10u", "200u", "250u", "value", "value"]
         if self.vtype == "string":
             c += ["size(value)", "size(value)"]
         if self.vtype in ("[]string", "[]int", "map[string]int"):
@@ -117,7 +119,7 @@ class Gen:
         if k < 0.6:
             return "%s %s %s" % (a, r.choice(["+", "-", "*", "/", "%"]), b)
         if k < 0.8:
-            return "(%s %s %s)" % (a, r.choice(["+", "-", "*"]), b)
+            return "(%s %s %s)" % (a, r.choice(["+", "-", "*", "/", "%"]), b)
         if k < 0.88:
             return "-%s" % self.int_atom()
         if k < 0.94:
@@ -247,6 +249,10 @@ FIXED = [
     ("time.Duration", "value > duration('1s')"), ("time.Duration", "value <= duration('1h')"), ("int", "has(this.A)"), ("int", "this.Ok ? value > 1 : value < 1"),
     ("int", "(this.Ok ? 1 : 0) == 1"), ("int", "value == 1 || value == 2 && this.A == 3"), ("int", "(value > 1) == (this.A > 1)"),
     ("int", "value > 1 == true"), ("int", "value + this.B > 0"), ("int", "value < 300"), ("int8", "value < 300"), ("int", "1 < value && value < 10"),
+    ("int", "value * (this.A / 2) <= 6"), ("int", "value * (7 % this.A) > 1"), ("int", "value / (this.A * 2) >= 1"), ("int", "value % (this.A + 1) == 0"),
+    ("int", "value - (this.A + 1) > 0"), ("int", "value * (10 / this.A) == 9"), ("int64", "value / (3 / 2) > 1"),
+    ("uint64", "value >= 10u"), ("uint8", "value < 200u && value != 7u"), ("uint", "value in [2u, 3u, 250u]"), ("uint16", "value + 1u > 5u"),
+    ("uint32", "value == 0u || value > 100u"),
     ("int", "value != 0 && 10 / value > 1"), ("int", "value == 0 || 10 % value == 1"), ("string", "value.contains('\"')"), ("string", "value == 'a\\\\b'"),
 ]
 
